@@ -81,11 +81,126 @@ theorem linv_deliver {b0 w W M : Nat} (hW : WOk W) {s s' : Sys} (h : SInv b0 w W
         exact hent _ (l.lg e he hu)
     · cases hs; exact l
 
+/-- `resynchronize` keeps the liveness invariant: the window advance passes only slots without entry
+flag, hence (recorded syncs, `PInv.sync`, and `LG`) no Reliable packet at all; so no received entry of
+the new window newly passes the test of the window pass. -/
+theorem linv_resync {b0 w W M : Nat} (hW : WOk W) (hw : w ≤ 2^16) {s s' : Sys} (h : SInv b0 w W M s)
+    (p : PInv W s) (l : LInv W s) (k : Nat) (hs : stepS s (.resync k) = .ok s') : LInv W s' := by
+  simp only [stepS] at hs
+  split at hs
+  · cases hs; exact l
+  · rename_i n id hk
+    split at hs
+    · rename_i hfresh
+      rw [stepT_resync] at hs
+      cases hr : resynchronize s.rcv.st id with
+      | error t => rw [hr] at hs; cases hs
+      | ok st' =>
+        rw [hr, bindR_ok, bindR_ok] at hs
+        cases hs
+        have hmem := List.mem_of_getElem? hk
+        rcases resync_cases (by omega) h n id hmem hfresh st' hr with rfl | ⟨nb, hnb, hle, hδ, hadv, hno⟩
+        · rw [pidSub_self]
+          exact ⟨l.rl, l.lg, l.nf⟩
+        · have hinv := h.rcv.inv
+          have hord := h.rcv.ord
+          have F := advanceWindow_facts hW hinv hord nb hnb hδ hadv
+          obtain ⟨hA, hB⟩ := advanceWindow_core hW hinv hord nb hnb hδ hadv
+          obtain ⟨-, hwr⟩ := advanceWindow_rdy hinv nb hnb hadv
+          have hbe : st'.baseId = nb := F.base
+          have hWle := hW.le
+          have hblt := hinv.blt
+          have P := resync_rel_logged hW h p n id hmem nb hle hδ hno
+          -- no Reliable packet is passed at all
+          have noRel : ∀ j x, s.hist.emitted[j]? = some x → x.mode = .reliable → s.rcv.adv ≤ j →
+              j < s.rcv.adv + pidSub nb s.rcv.st.baseId → False := by
+            intro j x hx hrel h1 h2
+            obtain ⟨e, he, hu⟩ := P j x hx hrel h1 h2
+            have hen := l.lg e he (by omega)
+            have hseq := h.rcv.gi.gseq e he
+            have hoff : pidSub e.seq s.rcv.st.baseId = e.uid - s.rcv.adv := by
+              rw [hseq, h.rcv.gi.gbase]
+              exact seq_off b0 s.rcv.adv e.uid (by omega) (by omega)
+            have := hno e.seq (by rw [hseq]; exact Nat.mod_lt _ (by decide)) (by rw [hoff]; omega)
+            rw [this] at hen
+            cases hen
+          -- an entry of the new window, in terms of the old one
+          have inwin : ∀ x, x < 2^20 → pidSub x nb < W → (lget st'.slots (wi W x)).entryFlag = true →
+              pidSub x s.rcv.st.baseId = pidSub x nb + pidSub nb s.rcv.st.baseId ∧
+              pidSub x s.rcv.st.baseId < W ∧ (lget s.rcv.st.slots (wi W x)).entryFlag = true ∧
+              (lget st'.slots (wi W x)).wpl = (lget s.rcv.st.slots (wi W x)).wpl := by
+            intro x hx hxo hen
+            obtain ⟨i1, i2, i3⟩ := adv_entry_inwin hW hinv nb hnb hδ hA hB x hx hxo hen
+            rw [(core_fields i3).1] at hen
+            exact ⟨i1, i2, hen, core_wpl i3⟩
+          refine ⟨⟨?_, ?_, ?_⟩, ?_, l.nf⟩
+          · intro k' a hcl
+            have hcl' : (lget st'.slots k').asm = .closed a := hcl
+            show (lget st'.slots k').entryFlag = true
+            by_cases hpass : ∃ id, id < 2^20 ∧ pidSub id s.rcv.st.baseId < pidSub nb s.rcv.st.baseId ∧ wi W id = k'
+            · obtain ⟨id', hid, hido, rfl⟩ := hpass
+              rw [(hB id' hid hido).2.2] at hcl'
+              cases hcl'
+            · have hcore := hA k' (fun id' hid hido hwi => hpass ⟨id', hid, hido, hwi⟩)
+              obtain ⟨e1, -, -, -, e5, -⟩ := core_fields hcore
+              rw [e5] at hcl'
+              rw [e1]
+              exact l.rl.ce k' a hcl'
+          · intro x hx hxo hen
+            have hxo' : pidSub x st'.baseId < W := hxo
+            have hen' : (lget st'.slots (wi W x)).entryFlag = true := hen
+            show pidSub x st'.baseId < pidSub st'.endId st'.baseId
+            rw [hbe] at hxo' ⊢
+            obtain ⟨i1, i2, i3, -⟩ := inwin x hx hxo' hen'
+            have i5 := l.rl.ef x hx i2 i3
+            rw [F.endId, if_neg (by omega)]
+            rw [off_shift s.rcv.st.endId s.rcv.st.baseId nb hblt hnb (by omega)]
+            omega
+          · intro x hx hxo hen ht
+            have hxo' : pidSub x st'.baseId < W := hxo
+            have hen' : (lget st'.slots (wi W x)).entryFlag = true := hen
+            have ht' : (lget st'.slots (wi W x)).wpl = 0 ∨
+                (lget st'.slots (wi W x)).wpl > pidSub x st'.baseId := ht
+            show st'.windowReady = true
+            rw [hbe] at hxo' ht'
+            obtain ⟨i1, i2, i3, i4⟩ := inwin x hx hxo' hen'
+            rw [i4] at ht'
+            rw [hwr]
+            apply l.rl.wr x hx i2 i3
+            apply Classical.byContradiction
+            intro hnt
+            obtain ⟨-, hw2⟩ := wpl_honest hw h x hx i2 i3
+            obtain ⟨hw2a, z, hz, hzrel⟩ := hw2 (by omega)
+            exact noRel _ z hz hzrel (by omega) (by omega)
+          · intro e he hu
+            have hu' : s.rcv.adv + pidSub st'.baseId s.rcv.st.baseId ≤ e.uid := hu
+            show (lget st'.slots (wi W e.seq)).entryFlag = true
+            rw [hbe] at hu'
+            have hin := l.lg e he (by omega)
+            have hseq := h.rcv.gi.gseq e he
+            obtain ⟨w1, w2, w3⟩ := h.rcv.gi.gwin e he
+            have hoff : pidSub e.seq s.rcv.st.baseId = e.uid - s.rcv.adv := by
+              rw [hseq, h.rcv.gi.gbase]
+              exact seq_off b0 s.rcv.adv e.uid (by omega) (by omega)
+            have hcore := hA (wi W e.seq) (by
+              intro id' hid hido hwi
+              have := off_eq_of_wi hW id' e.seq s.rcv.st.baseId hblt (by omega) (by omega) hwi
+              omega)
+            rw [(core_fields hcore).1]
+            exact hin
+    · cases hs; exact l
+
 theorem linv_step {b0 w W M : Nat} (hW : WOk W) (hw : w ≤ 2^16) {s s' : Sys} (h : SInv b0 w W M s)
-    (l : LInv W s) (op : SOp) (hs : stepS s op = .ok s') : LInv W s' := by
+    (p : PInv W s) (l : LInv W s) (op : SOp) (hs : stepS s op = .ok s') : LInv W s' := by
   cases op with
   | recv => exact linv_recv hW hw h l hs
   | deliver k => exact linv_deliver hW h l k hs
+  | resync k => exact linv_resync hW hw h p l k hs
+  | sync =>
+    simp only [stepS] at hs
+    split at hs
+    · cases hs; exact ⟨l.rl, l.lg, l.nf⟩
+    · cases hs; exact l
   | enq d c m f =>
     simp only [stepS] at hs
     split at hs
@@ -133,16 +248,16 @@ theorem linv_step {b0 w W M : Nat} (hW : WOk W) (hw : w ≤ 2^16) {s s' : Sys} (
       · cases hs; exact l
 
 theorem linv_run {b0 w W M : Nat} (hW : WOk W) (hw : w ≤ 2^16) (ops : List SOp) :
-    ∀ {s s' : Sys}, SInv b0 w W M s → LInv W s → runS s ops = .ok s' → LInv W s' := by
+    ∀ {s s' : Sys}, SInv b0 w W M s → PInv W s → LInv W s → runS s ops = .ok s' → LInv W s' := by
   induction ops with
-  | nil => intro s s' _ l hr; cases hr; exact l
+  | nil => intro s s' _ _ l hr; cases hr; exact l
   | cons op rest ih =>
-    intro s s' h l hr
+    intro s s' h p l hr
     rw [runS] at hr
     cases hs : stepS s op with
     | error t => rw [hs] at hr; cases hr
     | ok s1 =>
       rw [hs, bindR_ok] at hr
-      exact ih (sinv_step hW (by omega) h op hs) (linv_step hW hw h l op hs) hr
+      exact ih (sinv_step hW (by omega) h op hs) (pinv_step hW hw h p op hs) (linv_step hW hw h p l op hs) hr
 
 end Uflow.Sys
